@@ -293,3 +293,53 @@ def degenerate_sizes(REC, prop, bct, specs):
                 sh = np.shape(o)
                 ok = ok and all(d == n for d in sh)
             REC.check(prop, fname, 'degenerate_size', bool(ok), {'n': n, 'result': [np.asarray(o) for o in outs if not isinstance(o, (list, tuple))], 'extra': list(extra)}, ('n=%d' % n,))
+
+
+def concurrent_callers_agree(REC, prop, bct, specs, n, seed, nthreads=3, rounds=4):
+    """Several threads call the same routine at once, each on its own arrays (numpy releases the GIL inside BLAS and
+    in many ufunc loops, so the calls really overlap).  A routine that is a function of its arguments gives every
+    thread what it gives a lone caller; module-level scratch space shared between concurrent calls does not.
+    specs: list of (function name, builder(rs, n) -> args tuple).  The raw functions are used: the monitors' own
+    state is single-threaded by design."""
+    import threading
+    from .. import monitor as _mon
+    from ..monitor import raw
+    from ..history import History
+    for fname, builder in specs:
+        f = raw(getattr(bct, fname))
+        rs = np.random.RandomState(seed)
+        inputs = [builder(rs, n) for _ in range(nthreads * 2)]
+        depth0 = getattr(_mon._tls, 'depth', 0)
+        _mon._tls.depth = 1
+        try:
+            serial = [f(*[a.copy() if isinstance(a, np.ndarray) else a for a in args]) for args in inputs]
+        except CaseTimeout:
+            raise
+        except Exception:  # noqa
+            REC.skip(prop, fname, 'concurrent_callers_agree')
+            continue
+        finally:
+            _mon._tls.depth = depth0
+        bad = []
+        start = threading.Barrier(nthreads)
+
+        def worker(t):
+            try:
+                _mon._enter_thread()      # calls the routine makes to other bct routines are not depth-0 calls
+                start.wait(10)
+                for r in range(rounds):
+                    for i in range(t, len(inputs), nthreads):
+                        got = f(*[a.copy() if isinstance(a, np.ndarray) else a for a in inputs[i]])
+                        if not History.agree(serial[i], got):
+                            bad.append({'thread': t, 'round': r, 'input': i})
+            except BaseException as e:  # noqa
+                bad.append({'thread': t, 'exception': repr(e)[:200]})
+        ths = [threading.Thread(target=worker, args=(t,), daemon=True) for t in range(nthreads)]
+        for th in ths:
+            th.start()
+        for th in ths:
+            th.join(120)
+        alive = any(th.is_alive() for th in ths)
+        REC.tag(prop, 'concurrent_calls', nthreads * rounds * 2)
+        REC.check(prop, fname, 'concurrent_callers_agree', not bad and not alive,
+                  {'n': n, 'threads': nthreads, 'first_disagreements': bad[:5], 'still_running': alive}, ('threads=%d' % nthreads,))
